@@ -149,8 +149,11 @@ pub fn compiled_evo_strategy(h: usize) -> BoxedStrategy<EvoCase> {
     // a user-level DeduplicatedString anywhere inside (also in nested declarations) rules out cross-version reading
     // (documented in lib.rs); removed-field names in nested headers do not: see F17
     let dedup = crate::props::derived::batch().dedup_histories[h] || decls.iter().any(|d| Ty::Adt(d.clone()).any(&|t| *t == Ty::Dedup));
-    (0..n, 0..n, prop::sample::select(vec![Placement::Top, Placement::Top, Placement::Between, Placement::Between, Placement::InVec, Placement::InOption]))
+    let ok: Vec<usize> = (0..n).filter(|i| crate::props::derived::compiled_ok(&decls[*i])).collect();
+    let m = ok.len().max(1);
+    (0..m, 0..m, prop::sample::select(vec![Placement::Top, Placement::Top, Placement::Between, Placement::Between, Placement::InVec, Placement::InOption]))
         .prop_flat_map(move |(w, r, placement)| {
+            let (w, r) = (ok.get(w).copied().unwrap_or(0), ok.get(r).copied().unwrap_or(0));
             // cross-version reading with DeduplicatedString fields is documented as unsupported
             let r = if dedup { w } else { r };
             let tw = wrap(placement, Ty::Adt(decls[w].clone()));
@@ -319,7 +322,9 @@ pub fn run_c03(cx: &Cx) -> PropResult {
         // E2: every history of the compiled batch, all version pairs, through the derive macro's code
         let nh = crate::props::derived::batch().histories.len();
         for h in 0..nh {
-            if h % cx.shards != shard || !crate::props::derived::group_ok(&crate::props::derived::batch().histories[h]) {
+            // (versions that the macro of this tree does not compile are left out — C02 reports them — the rest of the
+            // history stays in play)
+            if h % cx.shards != shard || crate::props::derived::batch().histories[h].iter().filter(|d| crate::props::derived::compiled_ok(d)).count() < 1 {
                 continue;
             }
             let strat = compiled_evo_strategy(h);
@@ -330,7 +335,7 @@ pub fn run_c03(cx: &Cx) -> PropResult {
         }
         let nt = crate::props::derived::batch().tuple_histories.len();
         for t in (shard..nt).step_by(cx.shards) {
-            if !crate::props::derived::group_ok(&crate::props::derived::batch().tuple_histories[t]) {
+            if crate::props::derived::batch().tuple_histories[t].iter().filter(|d| crate::props::derived::compiled_ok(d)).count() < 1 {
                 continue;
             }
             let strat = tuple_evo_strategy(t);
@@ -446,8 +451,11 @@ fn tuple_records(t: usize) -> Vec<Record> {
 pub fn tuple_evo_strategy(t: usize) -> BoxedStrategy<TupleEvoCase> {
     let decls = crate::props::derived::batch().tuple_histories[t].clone();
     let n = decls.len();
-    (0..n, 0..n)
+    let ok: Vec<usize> = (0..n).filter(|i| crate::props::derived::compiled_ok(&decls[*i])).collect();
+    let m = ok.len().max(1);
+    (0..m, 0..m)
         .prop_flat_map(move |(w, r)| {
+            let (w, r) = (ok.get(w).copied().unwrap_or(0), ok.get(r).copied().unwrap_or(0));
             let cfg = ValCfg { max_len: 3, long: false, ..ValCfg::default() };
             (Just(w), Just(r), val_strategy(&Ty::Adt(decls[w].clone()), cfg))
         })
